@@ -15,6 +15,40 @@ PERSIST = ["sm2_sign_ctx_persist"]            # one context across a whole histo
 HISTORY = ["sm2_do_sign", "sm2_sign_ctx", "sm2_do_encrypt", "sm2_keygen", "sm9_sign", "tls_record_iv", "rand_bytes", "sm9_exch_1A"]
 
 
+NONCE_OPS = ("sm2_keygen", "sm2_do_sign", "sm2_sign", "sm2_sign_fixlen", "sm2_do_encrypt", "sm2_encrypt", "sm2_encrypt_fixlen")
+D1 = int.from_bytes(b"\x11" + b"\x42" * 31, "big")          # entdrv's fixed signing key
+
+
+def two_ints(der):
+    """(a, b) of SEQUENCE { INTEGER a, INTEGER b, ... } read leniently from a possibly truncated prefix"""
+    i = 2 + (der[1] & 0x7f if der[1] & 0x80 else 0)
+    out = []
+    for _ in range(2):
+        ln = der[i + 1]; out.append(int.from_bytes(der[i + 2:i + 2 + ln], "big")); i += 2 + ln
+    return out
+
+
+def nonce_source(ev):
+    """index (1-based) of the drawn value that is the secret scalar behind a successful result, 0 if none: the draw is read as the library's
+    sm2_z256_rand_range does (32 bytes straight into the limbs, little-endian here) and must lie in [1, n-1]"""
+    from sm2ref import n, G, mul
+    out = bytes(ev.get("out", [])); op = ev["op"]
+    cands = [int.from_bytes(bytes(ev["cand"][i:i + 32]), "little") for i in range(0, len(ev.get("cand", [])), 32)]
+    try:
+        if op in ("sm2_do_sign", "sm2_sign", "sm2_sign_fixlen"):
+            r, s_ = (int.from_bytes(out[:32], "big"), int.from_bytes(out[32:64], "big")) if op == "sm2_do_sign" else two_ints(out)
+            want = lambda k: 0 < k < n and k == (s_ * (1 + D1) + r * D1) % n
+        else:
+            pt = (int.from_bytes(out[:32], "big"), int.from_bytes(out[32:64], "big")) if op in ("sm2_keygen", "sm2_do_encrypt") else tuple(two_ints(out))
+            want = lambda k: 0 < k < n and mul(k, G) == pt
+    except Exception:
+        return 0
+    for i, k in enumerate(cands):
+        if want(k):
+            return i + 1
+    return 0
+
+
 def api_part(c):
     # phase 1: learn the number of draws of each operation
     res = CL.run_script("entdrv", ["entdrv.c", "vh.c"], [{"op": op, "seed": 11, "failat": 0, "reps": 1} for op in OPS], tag="c18a", procs=8)
@@ -39,6 +73,12 @@ def api_part(c):
         for g in group:
             lines.append(g)
             owner.append(op)
+    # a source that delivers a run of values no scalar range accepts (FF..FF) before it behaves: the operation either fails or uses a later, in-range draw --
+    # never the rejected value, and never the same value twice (rand_range gives up after 100 tries)
+    for op in NONCE_OPS:
+        if op in ndraws:
+            for high in (1, 2, 50, 99, 100, 101, 102, 150):
+                lines.append({"op": op, "seed": 21, "failat": 0, "reps": 2, "high": high}); owner.append(op)
     # persistent contexts: a history of 70 signatures with the source failing at each draw index of the first three nonce batches
     for op in PERSIST:
         ndraws[op] = 0
@@ -47,12 +87,22 @@ def api_part(c):
     res = CL.run_script("entdrv", ["entdrv.c", "vh.c"], lines, tag="c18b", procs=1 if len(lines) < 50 else 12)
     per_op = {}
     for (case, evs, san), op in zip(res, owner):
-        key = "c18:%s:seed%s:failat%s:reps%s" % (op, case["seed"], case["failat"], case["reps"])
+        key = "c18:%s:seed%s:failat%s:reps%s%s" % (op, case["seed"], case["failat"], case["reps"], ":high%s" % case["high"] if case.get("high") else "")
         c.count(1, key)
         if san:
             c.violation(key + ":crash", "driver died / sanitizer report: %s" % san, {"case": case})
             continue
-        per_op.setdefault(op, [{"e": "Group"}]).extend([dict(e, failat=case["failat"]) if e["e"] == "OpEnd" else e for e in evs])
+        for e in evs:
+            if e["e"] == "OpEnd":
+                e["failat"] = case["failat"]
+                e["nonceop"] = 1 if (op in NONCE_OPS and e["rc"] == 1 and (case["reps"] <= 4)) else 0
+                e["nsrc"] = nonce_source(e) if e["nonceop"] else 0
+                e.pop("cand", None)
+                if e["nonceop"]:
+                    c.cov["nonce_source_checked"] = c.cov.get("nonce_source_checked", 0) + 1
+        if case.get("high"):
+            evs = [{"e": "Group"}] + evs            # its own stream history: the comparison with other runs of the same seed does not apply
+        per_op.setdefault(op, [{"e": "Group"}]).extend(evs)
     return [("c18:api:" + op, evs) for op, evs in per_op.items()]
 
 
@@ -103,7 +153,7 @@ def hs_part(c):
                     alert = e["rtype"] == 21 or (s["proto"] == 772 and e["rtype"] == 23 and e["n"] == 24)
                     evs.append({"e": "Emit", "kind": "alert" if alert else "record"})
                 elif e["e"] == "HsRet" and e["who"] == w:
-                    evs.append({"e": "OpEnd", "op": "hs", "rc": e["rc"], "draws": e["draws"], "entfail": e["entfail"], "failat": fa, "rep": 0, "persist": 0, "outlen": 0, "eph": e.get("keys", "-") + key})
+                    evs.append({"e": "OpEnd", "op": "hs", "rc": e["rc"], "draws": e["draws"], "entfail": e["entfail"], "failat": fa, "rep": 0, "persist": 0, "outlen": 0, "nonceop": 0, "nsrc": 0, "eph": e.get("keys", "-") + key})
             execs.append((key + ":" + w, evs))
     return execs
 
@@ -121,7 +171,9 @@ def body():
         sub = "%s:seed%s:failat%s" % (key, begin[0].get("seed"), begin[0].get("failat"))
         what = "failed to fail closed / not entropy-driven / value reused"
         if ev.get("e") == "OpEnd":
-            if (ev.get("entfail") == 1 or begin[0].get("failat")) and ev.get("rc") == 1:
+            if ev.get("nonceop") == 1 and ev.get("nsrc") == 0:
+                what = "the operation reported success, but the secret scalar behind its result is not one of the in-range values it drew from the entropy source (high-streak of %s rejected draws)" % ev.get("high", 0)
+            elif (ev.get("entfail") == 1 or begin[0].get("failat")) and ev.get("rc") == 1:
                 what = "the operation reported success although the entropy source failed at draw %s" % begin[0].get("failat")
             elif begin[0].get("failat"):
                 what = "the operation emitted a non-alert message after the entropy source failed at draw %s" % begin[0].get("failat")
